@@ -348,6 +348,9 @@ def s_gate(P, E):
             continue
         gates = _gate_true_blocks(b)
         dom = b.dominators()
+        if not gates:
+            r.violate((b.nid, "no is_subscribed gate"),
+                      "the sink does not consult subscriber.is_subscribed() at all", body=b)
         for c in b.calls:
             if _subscriber_call(b, c, ("obs_next", "obs_error", "obs_complete")):
                 n += 1
@@ -392,7 +395,14 @@ def s_finalize_after_terminal(P, E):
                               "a downstream terminal is delivered and the controller returns without "
                               "finalize(): upstream stays subscribed", body=b, line=c.line,
                               path=E.describe_path(b, p))
-        for g in _gate_true_blocks(b):
+        gts = _gate_true_blocks(b)
+        if not gts:
+            r.instance((b.nid, "dead-subscriber->finalize"), True, "no gate")
+            if not fins or Effects.path_avoiding(b, b.returns, fins) is not None:
+                r.violate((b.nid, "dead subscriber without finalize"),
+                          "the sink has no is_subscribed() branch and does not finalize on every path: an upstream "
+                          "registered after the subscription ended is never torn down", body=b)
+        for g in gts:
             if g["false"] is None:
                 continue
             r.instance((b.nid, "dead-subscriber->finalize"), True, None)
@@ -492,4 +502,115 @@ def s_finalize_shape(P, E):
                               "the scheduler/queue/task cycle is not cut", body=b)
     except Unsupported as e:
         r.error("cannot interpret finalize: %s" % e)
+    return r
+
+
+# --------------------------------------------------------------------------- Subscription / Using (C05)
+
+def sub_rules(P, E):
+    r = RuleResult("SUB", "Subscription::unsubscribe is call-and-clear (idempotent); is_subscribed reports the ISSUB "
+                          "closure or false; inner_subscribe's subscription closes over the observer it handed to the "
+                          "source; Using::drop unsubscribes")
+    ub = P.body(SUBSCRIPTION + "::unsubscribe")
+    ib = P.body(SUBSCRIPTION + "::is_subscribed")
+    isb = P.body(OBSERVABLE + "::inner_subscribe")
+    if ub is None or ib is None or isb is None:
+        r.error("anchor missing: Subscription::unsubscribe / is_subscribed / Observable::inner_subscribe")
+        return r
+    calls = [c for c in ub.calls if atom(c) == "fw_call"]
+    r.instance((ub.nid, "invocation"), True, "%s" % [c.name for c in calls])
+    if len(calls) != 1 or calls[0].name != "call_and_clear_if_available" or \
+            not any(path[:1] == ("fn_unsubscribe",) for (_, _, path) in ub.operand_prov(calls[0].args[0])):
+        r.violate((ub.nid, "not call-and-clear"),
+                  "Subscription::unsubscribe must invoke fn_unsubscribe exactly once through call_and_clear_if_available "
+                  "(found %s): a second unsubscribe would run the teardown again" % [c.name for c in calls], body=ub)
+    elif Effects.path_avoiding(ub, ub.returns, [calls[0].bb]) is not None:
+        r.violate((ub.nid, "unsubscribe skipped on some path"), "a path through Subscription::unsubscribe does nothing", body=ub)
+    ic = [c for c in ib.calls if atom(c) == "fw_call"]
+    r.instance((ib.nid, "query"), True, "%s" % [c.name for c in ic])
+    if len(ic) != 1 or not any(path[:1] == ("fn_is_subscribed",) for (_, _, path) in ib.operand_prov(ic[0].args[0])):
+        r.violate((ib.nid, "does not consult fn_is_subscribed"), "Subscription::is_subscribed must report the ISSUB closure", body=ib)
+    for c in ib.calls:
+        if atom(c) == "fw_clear" or (atom(c) == "fw_call" and c.name == "call_and_clear_if_available"):
+            r.violate((ib.nid, "is_subscribed mutates"), "Subscription::is_subscribed clears a slot", body=ib)
+    # inner_subscribe: the observer passed to the source, the UNSUB and the ISSUB closures alias the same parameter
+    src_calls = [c for c in isb.calls if atom(c) == "fw_call" and any(path[:1] == ("source",) for (_, _, path) in isb.operand_prov(c.args[0]))]
+    news = [c for c in isb.calls if atom(c) == "subscription_new"]
+    r.instance((isb.nid, "wiring"), True, "source calls %s Subscription::new %s" % ([c.bb for c in src_calls], [c.bb for c in news]))
+    if len(src_calls) != 1 or len(news) != 1:
+        r.violate((isb.nid, "unexpected shape"), "inner_subscribe must call the source once and build one Subscription", body=isb)
+    else:
+        handed = isb.operand_prov(src_calls[0].args[1])
+        if not all(t[0] == "param" and t[1] == 2 for t in handed):
+            r.violate((isb.nid, "source gets another observer"), "the source is run with something else than the caller's observer", body=isb)
+        for i, (want, name) in enumerate((("obs_unsubscribe", "UNSUB"), ("is_subscribed", "ISSUB"))):
+            cl = news[0].arg_closure(i)
+            cb = P.bodies.get(cl) if cl else None
+            if cb is None:
+                r.error("SUB: Subscription::new argument %d is not a closure" % i)
+                continue
+            ks = [c for c in cb.calls if atom(c) == want]
+            ok = len(ks) == 1 and Effects.path_avoiding(cb, cb.returns, [ks[0].bb]) is None
+            if ok:
+                og = set()
+                for t in cb.operand_prov(ks[0].args[0]):
+                    og |= P.global_cell(cb, t)
+                ok = bool(og) and all(g[0] == isb.id and g[1] == "param" and g[2] == 2 for g in og)
+            r.instance((cb.nid, name), True, None)
+            if not ok:
+                r.violate((isb.nid, "%s closure does not act on the subscribed observer" % name),
+                          "the Subscription returned by subscribe does not %s the observer that was handed to the source"
+                          % ("unsubscribe" if i == 0 else "query"), body=cb)
+    # Using::drop
+    db = None
+    for b in P.bodies.values():
+        if b.impl_trait == "std::ops::Drop" and norm(ty_adt(b.impl_self or {}) or "") == "utils::using::Using":
+            db = b
+    if db is None:
+        r.error("anchor missing: impl Drop for Using")
+    else:
+        us = [c.bb for c in db.calls if atom(c) == "sub_unsubscribe"]
+        r.instance((db.nid, "drop"), True, "unsubscribe blocks %s" % us)
+        if not us or Effects.path_avoiding(db, db.returns, us) is not None:
+            r.violate((db.nid, "drop does not unsubscribe"), "dropping a Using guard does not unsubscribe on every path", body=db)
+    return r
+
+
+def s_fresh_serial(P, E):
+    """new_observer keys each upstream with a value drawn from a dedicated counter, incremented and
+    read under one write guard; the inserted key is that value (so keys of live upstreams never
+    collide and sink_complete's `last one out` test counts every live upstream)."""
+    r = RuleResult("S-fresh-serial", "new_observer draws a fresh serial under one write guard of a dedicated counter and "
+                                     "registers the upstream under exactly that key")
+    b = _sctl(P, "new_observer")
+    if b is None:
+        r.error("anchor missing: StreamController::new_observer")
+        return r
+    acqs, held, _ = b.guards()
+    sa = {bb: a for bb, a in acqs.items() if any(rk == "param" and rd == 1 and path[:1] == ("serial",) for (rk, rd, path) in a["cell"])}
+    ins = [c for c in b.calls if c.path == "std::collections::HashMap::insert"
+           and any(path[:1] == ("unscribers",) for (_, _, path) in b.operand_prov(c.args[0]))]
+    r.instance((b.nid, "serial"), True, "serial acquisitions %s inserts %s" % ({k: v["mode"] for k, v in sa.items()}, [c.bb for c in ins]))
+    if len(sa) != 1 or list(sa.values())[0]["mode"] != "W":
+        r.violate((b.nid, "serial not drawn under one write guard"),
+                  "the upstream key is not produced by one write-locked read-and-increment of the serial counter (%d "
+                  "acquisitions): keys of live upstreams can collide, an entry is overwritten and `last one out` fires early"
+                  % len(sa), body=b)
+    if not ins:
+        r.error("S-fresh-serial: insert into unscribers not found")
+    for c in ins:
+        key_from_serial = all(rk == "param" and rd == 1 and path[:1] == ("serial",) for (rk, rd, path) in b.operand_prov(c.args[1]))
+        r.instance((b.nid, "key"), True, "key provenance %s" % sorted(b.term_name(t) for t in b.operand_prov(c.args[1])))
+        if not key_from_serial:
+            r.violate((b.nid, "key not the fresh serial"), "the key under which the upstream is registered does not derive "
+                      "from the serial counter", body=b, line=c.line)
+    # the serial is incremented (a store through the guard) under that guard
+    stores = 0
+    for i in sorted(b.reach):
+        for s_ in b.blocks[i]["stmts"]:
+            if s_["k"] == "assign" and len(s_["lhs"]) > 1 and "*" in s_["lhs"] and \
+                    any(rk == "param" and rd == 1 and path[:1] == ("serial",) for (rk, rd, path) in b.place_prov(s_["lhs"])):
+                stores += 1
+    if not stores:
+        r.violate((b.nid, "serial never advanced"), "the serial counter is never incremented: every upstream gets the same key", body=b)
     return r
